@@ -278,8 +278,9 @@ def interleaved_cases():
         reps = [3, 2]
         lens = []
         for tid in (0, 1):
-            sc = sched.Scheduler(sched.ShimThreading(), "ak/short_uuid.py")
-            sc.run([_thread_fn(m, values[tid], reps[tid], [])], [])
+            for _ in range(2):      # (the first traced execution of a code object is not reported opcode by opcode)
+                sc = sched.Scheduler(sched.ShimThreading(), "ak/short_uuid.py")
+                sc.run([_thread_fn(m, values[tid], reps[tid], [])], [])
             lens.append(sc.steps[0])
         for x in (0, 1):
             for k in range(0, lens[x] + 1):
